@@ -498,6 +498,9 @@ def loose_eq(a, b, ignore_dates=False):
 def doc_eq(a, b):
     """Equality of two serialized documents, up to the order of a list (the JSON form of a set has no order of its own;
     the order of Arrays is compared on the instances)."""
+    num = lambda v: isinstance(v, (int, float)) and not isinstance(v, bool)      # noqa: E731
+    if num(a) and num(b):
+        return a == b          # the statement's ==: 0 and 0.0 are the same JSON number (a Decimal comes back as a float)
     if type(a) is not type(b):
         return False
     if isinstance(a, dict):
